@@ -703,3 +703,65 @@ func minLenExact(x ssa.Value) int64 {
 	}
 	return -1
 }
+
+// inclusiveBoundRule (T27): a counted loop `for i := a; i <= b; i += k` over a fixed-width unsigned counter ends only
+// if b is smaller than the largest value of the type minus k−1: for b at the top of the range the test is always true
+// and the counter wraps to zero — the loop never ends. The rule reports such a loop (unsigned counter, inclusive test,
+// constant positive step, non-constant bound) unless the bound is known below something at the loop head (a dominating
+// <, <= or == on that very value). Returns the number of inclusive-bound loops examined.
+func (c *Ctx) inclusiveBoundRule(rule string, fns []*ssa.Function) int {
+	n := 0
+	for _, f := range fns {
+		if f.Blocks == nil {
+			continue
+		}
+		k := 0
+		for _, L := range naturalLoops(f) {
+			iff, ok := L.Header.Instrs[len(L.Header.Instrs)-1].(*ssa.If)
+			if !ok {
+				continue
+			}
+			bo, ok := iff.Cond.(*ssa.BinOp)
+			if !ok {
+				continue
+			}
+			var ctr, bound ssa.Value
+			switch bo.Op {
+			case token.LEQ:
+				ctr, bound = bo.X, bo.Y
+			case token.GEQ:
+				ctr, bound = bo.Y, bo.X
+			default:
+				continue
+			}
+			phi, ok := ctr.(*ssa.Phi)
+			if !ok || phi.Block() != L.Header {
+				continue
+			}
+			bt, ok := phi.Type().Underlying().(*types.Basic)
+			if !ok || bt.Info()&types.IsUnsigned == 0 {
+				continue
+			}
+			if _, isK := bound.(*ssa.Const); isK {
+				continue
+			}
+			step := int64(0)
+			for _, e := range phi.Edges {
+				if inc, ok := e.(*ssa.BinOp); ok && inc.Op == token.ADD && inc.X == ssa.Value(phi) {
+					if kk, ok := constInt(inc.Y); ok {
+						step = kk
+					}
+				}
+			}
+			if step <= 0 {
+				continue
+			}
+			n++
+			k++
+			c.S.Check(upperBoundedBefore(L.Header, bound), rule, fmt.Sprintf("%s:inclusive bound #%d of an unsigned counter", load.FuncName(f), k), c.pos(iff.Cond.Pos()), "the bound is known below something before the loop",
+				fmt.Sprintf("the loop runs while an unsigned %s counter is <= a bound that nothing keeps away from the top of the type's range: for a bound within %d of the maximum the test is always true, the counter wraps to zero and the loop never ends", bt.Name(), step))
+		}
+	}
+	c.S.Count("inclusive_bound_loops", n)
+	return n
+}
